@@ -1,6 +1,6 @@
 (* Extraction of the UML class generator model (build/kmodel). *)
 From Coq Require Import Extraction ExtrOcamlBasic ExtrOcamlNativeString.
-From KV Require Import Lib.Str Lib.ODict Model.Vpp Model.Uml Spec.UmlSpec.
+From KV Require Import Lib.Str Lib.ODict Model.Vpp Model.Uml Model.UmlCs Spec.UmlSpec.
 
 Extraction Blacklist String List Bool.
 
@@ -8,4 +8,6 @@ Separate Extraction
   Uml.files_of Uml.class_files Uml.kind_of Uml.ns_begin Uml.ns_end Uml.ops_of Uml.decls_of Uml.defs_of
   Uml.decl_line Uml.def_head Uml.signature Uml.wf_vis Uml.name_ok Uml.replace_all Uml.split2 Uml.lower
   Uml.acyclic Uml.closed UmlSpec.files_hyp UmlSpec.distinct_paths UmlSpec.path_ok UmlSpec.expected_files
-  UmlSrc.template_files UmlSrc.template_files_cs.
+  UmlSrc.template_files UmlSrc.template_files_cs
+  Uml.once_hyp Uml.visited UmlCs.ops_of_cs UmlCs.members_cs UmlCs.all_cs UmlCs.cs_line UmlCs.cs_has_body UmlCs.files_all UmlCs.cs_view UmlCs.cs_cls
+  UmlSpec.files_hyp_cs UmlSpec.expected_files_cs.
